@@ -21,6 +21,8 @@ type cfNode struct {
 	Else []*cfNode
 	// Direct: a continue whose immediately enclosing block is its target loop
 	Direct bool
+	// Show: a call followed by `exitnum`, which prints the exit number the function ended with
+	Show bool
 }
 
 type cfFunc struct {
@@ -35,6 +37,9 @@ type cfGen struct {
 	ntag   int
 	funcs  []*cfFunc
 	budget int
+	// exitKnown: functions whose exit number the model knows however they end
+	// (last statement is `out` or `return`, no `break <function>`)
+	exitKnown map[string]bool
 }
 
 type cfScope struct {
@@ -113,7 +118,15 @@ func (g *cfGen) stmts(sc cfScope, depth int, callable []string) []*cfNode {
 				}
 			}
 		case k < 93 && len(callable) > 0:
-			out = append(out, &cfNode{Kind: "call", Name: callable[g.r.Intn(len(callable))]})
+			call := &cfNode{Kind: "call", Name: callable[g.r.Intn(len(callable))]}
+			out = append(out, call)
+			switch c := g.r.Intn(6); {
+			case c < 2 && g.exitKnown[call.Name]:
+				call.Show = true
+			case c < 4:
+				// a return directly after a command that may have ended non-zero
+				out = append(out, &cfNode{Kind: "return", N: g.r.Intn(4) - 1})
+			}
 		default:
 			out = append(out, &cfNode{Kind: "out", Tag: g.tag()})
 		}
@@ -122,13 +135,26 @@ func (g *cfGen) stmts(sc cfScope, depth int, callable []string) []*cfNode {
 }
 
 func genCF(r *rand.Rand, id string) []*cfFunc {
-	g := &cfGen{r: r, id: id, budget: 22}
+	g := &cfGen{r: r, id: id, budget: 22, exitKnown: map[string]bool{}}
 	nh := r.Intn(3)
 	var names []string
 	for i := nh; i >= 1; i-- {
 		name := fmt.Sprintf("c39h%d_%s", i, id)
 		f := &cfFunc{Name: name}
 		f.Body = g.stmts(cfScope{fn: name}, 2, names)
+		if g.r.Intn(3) > 0 {
+			if g.r.Intn(2) == 0 {
+				f.Body = append(f.Body, &cfNode{Kind: "out", Tag: g.tag()})
+			} else {
+				f.Body = append(f.Body, &cfNode{Kind: "return", N: g.r.Intn(5) - 1})
+			}
+		}
+		if len(f.Body) == 0 {
+			f.Body = append(f.Body, &cfNode{Kind: "out", Tag: g.tag()})
+		}
+		if last := f.Body[len(f.Body)-1]; (last.Kind == "out" || last.Kind == "return") && !cfBreaksFunc(f.Body, name) {
+			g.exitKnown[name] = true
+		}
 		g.funcs = append(g.funcs, f)
 		names = append(names, name)
 	}
@@ -140,6 +166,18 @@ func genCF(r *rand.Rand, id string) []*cfFunc {
 	}
 	g.funcs = append(g.funcs, main)
 	return g.funcs
+}
+
+func cfBreaksFunc(nodes []*cfNode, fn string) bool {
+	for _, n := range nodes {
+		if n.Kind == "break" && n.Name == fn {
+			return true
+		}
+		if cfBreaksFunc(n.Body, fn) || cfBreaksFunc(n.Else, fn) {
+			return true
+		}
+	}
+	return false
 }
 
 func cfSrc(nodes []*cfNode, ind string, b *strings.Builder) {
@@ -168,9 +206,16 @@ func cfSrc(nodes []*cfNode, ind string, b *strings.Builder) {
 		case "continue":
 			b.WriteString(ind + "continue " + n.Name + "\n")
 		case "return":
-			fmt.Fprintf(b, "%sreturn %d\n", ind, n.N)
+			if n.N < 0 {
+				b.WriteString(ind + "return\n") // no number: 0
+			} else {
+				fmt.Fprintf(b, "%sreturn %d\n", ind, n.N)
+			}
 		case "call":
 			b.WriteString(ind + n.Name + "\n")
+			if n.Show {
+				b.WriteString(ind + "exitnum\n")
+			}
 		}
 	}
 }
@@ -195,6 +240,7 @@ type cfInterp struct {
 	// directNoop: model the known deviation (a direct continue does nothing)
 	directNoop bool
 	directRun  int
+	shown      int
 }
 
 func (in *cfInterp) block(nodes []*cfNode, vars map[string]int) cfSignal {
@@ -254,10 +300,19 @@ func (in *cfInterp) block(nodes []*cfNode, vars map[string]int) cfSignal {
 		case "return":
 			in.ctlRun++
 			in.kinds["return"]++
+			if n.N < 0 {
+				return cfSignal{kind: "return", n: 0}
+			}
 			return cfSignal{kind: "return", n: n.N}
 		case "call":
-			if sig := in.call(n.Name); sig.kind == "overflow" {
+			sig := in.call(n.Name)
+			if sig.kind == "overflow" {
 				return sig
+			}
+			if n.Show {
+				// done:return -> its number; end of the body reached -> the last command's (out: 0)
+				in.shown++
+				fmt.Fprintf(&in.out, "%d\n", sig.n)
 			}
 		}
 	}
@@ -287,13 +342,14 @@ type c39Expect struct {
 	HasDev    bool   `json:"has_dev,omitempty"`
 	DevExit   int    `json:"dev_exit,omitempty"`
 	DevExitOK bool   `json:"dev_exit_ok,omitempty"`
+	Shown     int    `json:"shown,omitempty"`
 }
 
 func init() {
 	register(&Property{
 		ID:    "C39",
 		Level: "exploration",
-		Rule: "PRNG programs of 1-3 functions with nested foreach / while / if blocks (depth <= 4) printing `out` markers, with break <name> (nearest foreach/while/if or the function), continue <loop> and return n placed unconditionally or under `if { $loopvar == k }`; run in-process and compared (stdout always; exit number when the program ends through return or its last command) with a reference interpreter; " +
+		Rule: "PRNG programs of 1-3 functions with nested foreach / while / if blocks (depth <= 4) printing `out` markers, with break <name> (nearest foreach/while/if or the function), continue <loop> and return n (also `return` without a number, and return directly after a function call that may have ended non-zero) placed unconditionally or under `if { $loopvar == k }`; the exit number of helper functions is printed with `exitnum` after some calls; run in-process and compared (stdout always; exit number when the program ends through return or its last command) with a reference interpreter; " +
 			"non-trivial = at least one control statement executed and at least one guard both taken and not taken; distinct by program text",
 		Assumptions: []string{"break/continue only name blocks that enclose them inside the same function", "the exit number after `break <function>` is not asserted", "leaf commands out, a [1..n], expression assignment and `if {$v == k}` are the observation channel"},
 		Run: func(x *Ctx) {
@@ -318,7 +374,7 @@ func init() {
 				if sig.kind == "overflow" {
 					continue
 				}
-				e := c39Expect{Stdout: in.out.String(), Src: src.String(), Kinds: in.kinds}
+				e := c39Expect{Stdout: in.out.String(), Src: src.String(), Kinds: in.kinds, Shown: in.shown}
 				switch sig.kind {
 				case "done:return":
 					e.Exit, e.ExitKnown = sig.n, true
@@ -360,6 +416,7 @@ func init() {
 			if e.NT {
 				x.Nontrivial(e.Src)
 			}
+			x.Count("function exit numbers printed by exitnum", int64(e.Shown))
 			for k, v := range e.Kinds {
 				x.Count("executed "+k, int64(v))
 			}
